@@ -33,14 +33,18 @@ SS(qq) == {SeqToSet(qq[i]) : i \in 1..Len(qq)}
 RootTag(r) == IF r THEN "rooted" ELSE "unrooted"
 
 \* ------------------------------------------------------------------ Encode
-EncClass(e) == RootTag(IsRooted(e.g0)) \o (IF e.su THEN "+su" ELSE "-su") \o (IF e.cb THEN "+cb" ELSE "-cb")
+\* route = "" : a direct encode_bipartitions / update_bipartitions call; otherwise the public operation
+\* that was called with update_bipartitions=True (g0 = g1 = the tree it left behind)
+EncClass(e) == (IF e.route # "" THEN e.route \o ":" ELSE "") \o RootTag(IsRooted(e.g0)) \o (IF e.su THEN "+su" ELSE "-su") \o (IF e.cb THEN "+cb" ELSE "-cb")
              \o (IF HasUnifurcation(e.g0) THEN "/unif" ELSE "")
              \o (IF ~IsRooted(e.g0) /\ Len(e.g0.kids[e.g0.seed]) = 2 THEN "/basalbif" ELSE "")
 JudgeEncode(e) ==
     LET g0 == e.g0  g1 == e.g1  k == EncClass(e) IN
-    IF WFClause(g0) # "ok" THEN V("C01.InputInDomain", "encode-input:" \o WFClause(g0))
+    IF e.route # "" /\ e.raised # "" THEN None     \* the operation itself failed: nothing was encoded (C03/C07/C08 judge the operations)
+    ELSE IF e.route = "" /\ WFClause(g0) # "ok" THEN V("C01.InputInDomain", "encode-input:" \o WFClause(g0))
     ELSE IF e.raised # "" THEN V("C01.Raised", "encode_bipartitions:" \o e.raised)
-    ELSE IF WFClause(g1) # "ok" THEN V("C01.EncodedTreeWellFormed", WFClause(g1))
+    ELSE IF WFClause(g1) # "ok" THEN (IF e.route # "" THEN None    \* the operation damaged the tree: C03's, not an encoding
+                                      ELSE V("C01.EncodedTreeWellFormed", WFClause(g1)))
     ELSE IF Len(e.ls) # g1.n \/ Len(e.sp) # g1.n \/ Len(e.tl) # g1.n THEN V("C01.InputInDomain", "mask-table")
     ELSE
       LET lt == TLCEval([x \in Nodes(g1) |-> LeafTx(g1, x)])
@@ -62,7 +66,7 @@ JudgeEncode(e) ==
       (IF ~e.hasmap THEN None ELSE
        IF /\ SS(e.mapk) = obs
           /\ \A j \in 1..Len(e.mapn) : e.mapn[j] \in Nodes(g1) /\ e.sp[e.mapn[j]] = e.mapk[j]
-       THEN None ELSE V("C01.EncodingListIsFresh", "split_bitmask_edge_map/" \o k))
+       THEN None ELSE V("C01.EncodingListIsFresh", "split_bitmask_edge_map/" \o (IF e.route # "" THEN e.route ELSE k)))
       \o
       \* the tree as handed in and the tree as left behind are the same topology and the
       \* encoding is that of the tree handed in
